@@ -124,7 +124,12 @@ M('c04-left-wrong-neighbour', 'C04', 'transformation.py',
   "    G2 = R @ G2\n    Z[i] = teneva._reshape(G2, (G2.shape[0], n2, r3))")
 M('c04-guard-off-by-one', 'C04', 'transformation.py',
   "    if i is None or i < 0 or i >= d-1:", "    if i is None or i < 0 or i > d-1:")
-M('c04-pivot-guard', 'C04', 'transformation.py',
+# (was listed as a mutant until calls that raise on every path were
+# propagated to the caller: with k = d the loop reaches
+# orthogonalize_left(Z, d-1), which raises the very same
+# ValueError('Invalid mode number') -- the outer upper bound is redundant and
+# the edit is behaviour preserving; the earlier "kill" was a false alarm)
+T('c04-twin-pivot-guard-redundant', 'C04', 'transformation.py',
   "    if k is None or k < 0 or k > d-1:", "    if k is None or k < 0 or k > d:")
 M('c04-inplace-copy-dropped', ['C04', 'C09'], 'transformation.py',
   "    Z = Y if inplace else teneva.copy(Y)\n\n    r1, n1, r2 = Z[i].shape\n    G1 = teneva._reshape(Z[i], (r1 * n1, r2))\n    Q, R = np.linalg.qr",
@@ -418,3 +423,37 @@ T('c07-twin-slice-check-helper', 'C07', 'als.py', None, None,
   edits=[("    if not allow_skip_cores:\n        for k in range(d):\n            if np.unique(I_trn[:, k]).size != Y[k].shape[1]:\n                msg = 'One groundtruth sample is needed for every slice'\n                raise ValueError(msg)\n", "    if not allow_skip_cores:\n        _check_slices(I_trn, Y)\n"),
          ("def _lstsq(A, y, lamb=1e-2, w=None, *, overwrite_a=True, update_sol=None):", "def _check_slices(I_trn, Y):\n    for k in range(len(Y)):\n        if np.unique(I_trn[:, k]).size != Y[k].shape[1]:\n            msg = 'One groundtruth sample is needed for every slice'\n            raise ValueError(msg)\n\n\ndef _lstsq(A, y, lamb=1e-2, w=None, *, overwrite_a=True, update_sol=None):")])
 T('c13-twin-addmany-positional', 'C13', 'anova.py', "            cores = teneva.add_many([cores] + cores2_many, r=r)", "            cores = teneva.add_many([cores] + cores2_many, 1.E-10, r)")
+
+
+# ------------------------------------------------------------------ round h rules
+M('c02-abs-threshold-gram', ['C02', 'C03'], 'svd.py', "    w, U = np.linalg.eigh(C)\n", "    if np.linalg.norm(C) < 1.E-14:\n        return np.zeros([m, 1]), np.zeros([1, n])\n\n    w, U = np.linalg.eigh(C)\n")
+T('c02-twin-zero-gram-shortcut', ['C03', 'C11'], 'svd.py', "    w, U = np.linalg.eigh(C)\n", "    if not np.any(C):\n        return np.zeros([m, 1]), np.zeros([1, n])\n\n    w, U = np.linalg.eigh(C)\n")
+M('c03-svd-e-split', 'C03', 'svd.py', "    Z = Y_full.copy()\n", "    e = e / np.sqrt(max(len(n) - 1, 1))\n    Z = Y_full.copy()\n")
+M('c05-oracle-kind-passthrough', 'C05', 'cross.py', "        info['m'] += len(I)\n        return np.array(y, dtype=float)", "        info['m'] += len(I)\n        return np.asarray(y)")
+T('c05-twin-oracle-asarray-float', ['C05', 'C06'], 'cross.py', "        info['m'] += len(I)\n        return np.array(y, dtype=float)", "        info['m'] += len(I)\n        return np.asarray(y, dtype=float).copy()")
+M('c06-zero-criteria-unset', 'C06', 'cross.py', "    if m is None and e is None and nswp is None:", "    if not (m or e or nswp):")
+M('c07-als-orth-const-rank', 'C07', 'als.py', "    Y = teneva.copy(Y0)\n    if r is not None:\n        Y = teneva.orthogonalize(Y, 0, use_stab)", "    Y = teneva.orthogonalize(Y0, 0, use_stab and r is not None)")
+M('c14-square-skip-unit-mode', 'C14', 'sample.py', "        Qtens = np.einsum('kr,riq->kiq', Q, G, optimize='optimal')", "        if n == 1:\n            I[:, di] = 0\n            continue\n\n        Qtens = np.einsum('kr,riq->kiq', Q, G, optimize='optimal')")
+T('c14-twin-square-unit-mode-contracted', 'C14', 'sample.py', "        Qtens = np.einsum('kr,riq->kiq', Q, G, optimize='optimal')", "        if n == 1:\n            I[:, di] = 0\n            Q = Q @ G[:, 0, :]\n            continue\n\n        Qtens = np.einsum('kr,riq->kiq', Q, G, optimize='optimal')")
+M('c17-split-c-order', 'C17', 'core.py', "    A = teneva._reshape(G, (-1, r2))\n    A, V0 = teneva.matrix_svd(A, e, r)", "    A = G.reshape(-1, r2)\n    A, V0 = teneva.matrix_svd(A, e, r)")
+T('c17-twin-split-f-order-method', ['C17', 'C11'], 'core.py', "    A = teneva._reshape(G, (-1, r2))\n    A, V0 = teneva.matrix_svd(A, e, r)", "    A = G.reshape((-1, r2), order='F')\n    A, V0 = teneva.matrix_svd(A, e, r)")
+M('c18-prep-opts-explicit-d', 'C18', 'grid.py', "            if d is None:\n                d = len(item)\n            elif d != len(item):\n                raise ValueError('Invalid grid option')", "            if d is None:\n                d = len(item)")
+M('c19-delta-sign', ['C19', 'C01'], 'tensors.py', "    d = len(n)\n    s = abs(v) / v if abs(v) > 1.E-16 else v\n    v = abs(v)**(1./d) if abs(v) > 1.E-16 else 1.\n    Y = [np.zeros([1, k, 1]) for k in n]", "    d = len(n)\n    s = np.sign(v)\n    v = abs(v)**(1./d) if abs(v) > 1.E-16 else 1.\n    Y = [np.zeros([1, k, 1]) for k in n]")
+M('c19-rand-rank-clamped', 'C19', 'tensors.py', "    r = np.asanyarray(r, dtype=int)\n\n    ps = np.cumsum", "    r = np.asanyarray(r, dtype=int)\n    for k in range(1, d):\n        r[k] = min(r[k], r[k-1] * n[k-1])\n\n    ps = np.cumsum")
+
+
+# ------------------------------------------------------------------ round i rules (contract side)
+M('c03-svd-flatten-memory-order', 'C03', 'svd.py', "    Z = Y_full.copy()\n    Y = []", "    Z = Y_full.flatten(order='K')\n    Y = []")
+T('c03-twin-svd-flatten-c-order', 'C03', 'svd.py', "    Z = Y_full.copy()\n    Y = []", "    Z = Y_full.flatten(order='C')\n    Y = []")
+M('c04-pivot-isinstance-int', 'C04', 'transformation.py', "    if k is None or k < 0 or k > d-1:", "    if not isinstance(k, int) or k < 0 or k > d-1:")
+M('c05-stop-guard-uncached-only', 'C05', 'cross.py', "    if cache is None:\n        if info['m_max'] is not None and info['m'] + len(I) > info['m_max']:", "    if cache is None:\n        if info['stop']:\n            return\n        if info['m_max'] is not None and info['m'] + len(I) > info['m_max']:")
+T('c05-twin-stop-guard-both-paths', 'C05', 'cross.py', None, None,
+  edits=[("    if cache is None:\n        if info['m_max'] is not None and info['m'] + len(I) > info['m_max']:", "    if info['stop']:\n        return\n\n    if cache is None:\n        if info['m_max'] is not None and info['m'] + len(I) > info['m_max']:")])
+M('c08-lu-pivot-absolute', 'C08', 'maxvol.py', "    P, L, U = lu(A, check_finite=False)\n", "    P, L, U = lu(A, check_finite=False)\n    if np.abs(np.diag(U)).min() < 1.E-12:\n        raise ValueError('Input matrix should have full column rank')\n")
+M('c09-truncate-e-inplace', 'C09', 'transformation.py', "            e = e / np.sqrt(d-1) * np.linalg.norm(Z[-1])\n    else:", "            e *= np.linalg.norm(Z[-1]) / np.sqrt(d-1)\n    else:")
+M('c11-accuracy-on-data-sentinel', 'C11', 'data.py', "    if I_data is None or y_data is None:", "    if I_data is None or len(I_data) == 0:")
+M('c12-func-int-overwrite-x', 'C09', 'func.py', "            A[k] = dct(y, 1, axis=1) / (y.shape[1] - 1)", "            A[k] = dct(y, 1, axis=1, overwrite_x=True) / (y.shape[1] - 1)")
+M('c17-merge-no-copy', 'C17', 'core.py', "    G = Q_list[0].copy()", "    G = Q_list[0]")
+M('c18-prep-opt-reps-one', 'C18', 'grid.py', "    if reps is not None:", "    if reps is not None and reps > 1:")
+M('c20-sample-tt-truth-of-slice', ['C20', 'C14'], 'sample.py', "        if len(sh2) == 0:", "        if not sh2:")
+T('c20-twin-sample-tt-size-test', ['C20', 'C14'], 'sample.py', "        if len(sh2) == 0:", "        if np.size(sh2) == 0:")
